@@ -104,15 +104,14 @@ func RedactMongoLog(jsonStr string) (*orderedmap.OrderedMap[string, any], error)
 			}
 		}
 		command, ok := attr.Get("command")
-		if !ok {
-			return entry, nil
-		}
-		if cmdMap, ok := command.(*orderedmap.OrderedMap[string, any]); ok {
-			redactCommand(cmdMap, shouldEagerRedact)
-			if redactNamespaces {
-				redactNamespace(cmdMap)
+		if ok {
+			if cmdMap, ok := command.(*orderedmap.OrderedMap[string, any]); ok {
+				redactCommand(cmdMap, shouldEagerRedact)
+				if redactNamespaces {
+					redactNamespace(cmdMap)
+				}
+				attr.Set("command", cmdMap)
 			}
-			attr.Set("command", cmdMap)
 		}
 		if shouldEagerRedact {
 			planSummary, psOk := attr.Get("planSummary")
